@@ -62,6 +62,7 @@ Inductive event :=
 | EvDeliver (p : part) (o : Z)         (* the handler receives the record at offset o *)
 | EvClaimReturn (p : part)
 | EvClaimError (p : part) (delivered : bool)   (* an error of the claim's partition consumer reaches handleError; delivered: it got onto Errors() *)
+| EvPomError (p : part) (delivered : bool)     (* an error of partition p's offset manager reaches handleError *)
 | EvCleanup
 | EvStored (p : part) (o : Z)          (* the coordinator stored o as the group's position *)
 | EvFinalCommit                        (* offsetManager.Close finished *)
@@ -243,6 +244,7 @@ Inductive input :=
 | IClaimGo (p : part) (a1 a2 : bool)    (* claim goroutine p runs up to the call of ConsumeClaim; a1 a2: see claim_try *)
 | IDeliver (p : part)
 | IClaimReturn (p : part)
+| IPomError (p : part) (delivered : bool)     (* the offset manager of p reports an error (a commit answered with one) *)
 | IClaimError (p : part) (delivered : bool)   (* the partition consumer of claim p reports an error (Consumer.Return.Errors) *)
 | IHeartbeat (v : hv)
 | ICancel
@@ -393,6 +395,14 @@ Definition step (cf : cfg) (w : world) (i : input) : world * list event :=
       | None => (w, [])
       end
     else (w, [])
+  | IPomError p delivered =>
+    (* the per-partition forwarder started by newConsumerGroupSession reads pom.Errors() until that channel is closed, which
+       offsets.Close does only after the final flush; handleError never blocks: nothing changes in the member, whether or not
+       the application reads Errors() — in particular the final commit attempts do not wait for it *)
+    match w_phase w with
+    | PRunning | PReleasing | PCommit _ => (w, [EvPomError p delivered])
+    | _ => (w, [])
+    end
   | IClaimReturn p =>
     if claims_live w then
       match claim_find (s_claims w) p with
